@@ -21,7 +21,7 @@ import tempfile
 import numpy as np
 import z3
 
-from symx import runner, core, fixtures, geninp
+from symx import runner, core, fixtures, geninp, npshim
 from symx.core import Sym
 
 import dassh
@@ -162,7 +162,6 @@ def _mutables(root, path, out, depth=0):
             _mutables(v, '%s[%d]' % (path, i), out, depth + 1)
         return
 
-
 def _state_ids(asm):
     out = {}
     for nm in ('_peak', '_power_delivered'):
@@ -197,6 +196,27 @@ def body_graph_region(env):
                 if isinstance(vals[0], np.ndarray):
                     env.holds('clones do not share the array %s[%s]' % (nm, k),
                               all(vals[i] is not vals[j] for i in range(len(vals)) for j in range(i + 1, len(vals))))
+    if all(hasattr(x, '_coolant_tracker') for x in (t, A, B)):
+        # behavioural, because a tracker is a plain object holding lists: two distinct trackers may still hold the same lists, which
+        # matters exactly when a method writes into them.  Drive the real tracker of clone A through update / reset / update at
+        # other temperatures and look at what clone B and the template can observe of theirs.
+        def snap(x):
+            return copy.deepcopy({k: v for k, v in vars(x._coolant_tracker).items()})
+        before = [snap(t), snap(B)]
+        with npshim.unpatched():
+            for T in (700.0, 900.0, 650.0):
+                A.coolant.update(T)
+                A._coolant_tracker.update(A.coolant)
+                A._coolant_tracker.reset()
+            A.coolant.update(800.0)
+            A._coolant_tracker.update(A.coolant)
+        after = [snap(t), snap(B)]
+        env.holds('update / reset / update of the property tracker of clone A leaves the tracker state of the template unchanged',
+                  repr(before[0]) == repr(after[0]), key='shared__coolant_tracker')
+        env.holds('update / reset / update of the property tracker of clone A leaves the tracker state of clone B unchanged',
+                  repr(before[1]) == repr(after[1]), key='shared__coolant_tracker')
+        with npshim.unpatched():
+            A.coolant.update(t.coolant.temperature)
     ids = [_region_ids(x) for x in (t, A, B)]
     for (i, j, what) in ((1, 2, 'two clones'), (0, 1, 'template and clone')):
         shared = sorted(ids[i][k] for k in set(ids[i]) & set(ids[j]))
